@@ -1,50 +1,62 @@
 #!/usr/bin/env python3
-"""Applies every seeded change under /verif/seeded to /repo (one at a time, reverted
-afterwards), runs the quick check of its property and records which obligations fire.
-Writes /verif/seeded/RESULTS.json and RESULTS.md. /repo must be clean."""
-import json, os, re, subprocess, sys, glob
-V = os.path.dirname(os.path.dirname(os.path.abspath(__file__)))
-def sh(cmd, cwd=None):
-    p = subprocess.run(cmd, shell=True, cwd=cwd, capture_output=True, text=True, errors="replace")
-    return p.returncode, p.stdout + p.stderr
-rc, out = sh("git status --porcelain --untracked-files=no", "/repo")
-if out.strip():
-    print("/repo is not clean:", out); sys.exit(2)
-rows = []
+"""Analyses every seeded change under /verif/seeded in a scratch copy of /repo's
+working tree (patch applied there, never in /repo), runs the property's quick
+check on the copy and records which obligations fire.  Writes
+/verif/seeded/RESULTS.json and RESULTS.md.
+
+usage: run_seeded.py [Cxx|Cxx-mk ...]   (env VERIF_JOBS)"""
+import glob, json, os, shutil, sys, tempfile
+from concurrent.futures import ThreadPoolExecutor
+sys.path.insert(0, os.path.dirname(os.path.abspath(__file__)))
+import variants as V
+
 only = sys.argv[1:]
-for d in sorted(glob.glob(os.path.join(V, "seeded", "C*-m*"))):
+dirs = [d for d in sorted(glob.glob(os.path.join(V.VERIF, "seeded", "C*-m*")))
+        if not only or any(os.path.basename(d).startswith(o) for o in only)]
+tmp = tempfile.mkdtemp(prefix="lunar-seeded-")
+base = {}
+
+
+def base_of(prop):
+    if prop not in base:
+        rc, verd, _ = V.run_check(prop, V.REPO, os.path.join(tmp, "vb-" + prop))
+        base[prop] = V.failing(verd)
+    return base[prop]
+
+
+def one(d):
     name = os.path.basename(d)
-    if only and not any(name.startswith(o) for o in only):
-        continue
     prop = name.split("-")[0]
     meta = json.load(open(os.path.join(d, "meta.json")))
-    patch = os.path.join(d, "patch.rebased.diff")
-    if not os.path.exists(patch):
-        patch = os.path.join(d, "patch.diff")
-    rc, out = sh(f"git apply --check {patch}", "/repo")
-    how = "applied"
-    if rc != 0:
-        rc, out = sh(f"git apply --3way {patch}", "/repo")
-        sh("git reset -q", "/repo")
-        how = "applied (3-way merge onto the repaired tree)"
-        if rc != 0:
-            sh("git checkout HEAD -- .", "/repo")
-            rows.append({"seed": name, "property": prop, "status": "patch does not apply on the repaired tree", "rules": []}); continue
-    else:
-        sh(f"git apply {patch}", "/repo")
-    cmd = f"python3 pycheck/c19.py --tier quick" if prop == "C19" else f"./bin/lunarcheck -p {prop} -tier quick"
-    rc, out = sh(cmd, V)
-    sh("git checkout HEAD -- .", "/repo")
-    keys = re.findall(r"rule=(\S+) key=(\S+)", out)
-    rows.append({"seed": name, "property": prop, "status": "DETECTED" if rc != 0 else "MISSED", "how": how,
-                 "summary": meta.get("summary", "")[:300], "needs": meta.get("needs_to_manifest", "")[:300],
-                 "rules": sorted({k for _, k in keys})[:6]})
-    print(name, rows[-1]["status"], rows[-1]["rules"][:2], flush=True)
-    # restore evidence of the unchanged tree
-    sh(cmd, V)
-json.dump(rows, open(os.path.join(V, "seeded", "RESULTS.json"), "w"), indent=1)
-with open(os.path.join(V, "seeded", "RESULTS.md"), "w") as f:
-    f.write("| seeded change | what it does | detected by (obligation keys) |\n|---|---|---|\n")
-    for r in rows:
-        f.write(f"| {r['seed']} | {r.get('summary','').replace('|','/')} | {r['status']}: {', '.join(r['rules'])} |\n")
+    tree = os.path.join(tmp, "t-" + name)
+    V.scratch_copy(tree)
+    ok, how = V.apply_patch(tree, V.seeded_patch(d))
+    if not ok:
+        shutil.rmtree(tree, ignore_errors=True)
+        return {"seed": name, "property": prop, "status": "patch does not apply on the current tree", "rules": [], "summary": meta.get("summary", "")[:300]}
+    rc, verd, out = V.run_check(prop, tree, os.path.join(tmp, "v-" + name))
+    shutil.rmtree(tree, ignore_errors=True)
+    new = sorted(V.failing(verd) - base[prop])
+    row = {"seed": name, "property": prop, "status": "DETECTED" if rc != 0 and new else "MISSED", "how": how,
+           "summary": meta.get("summary", "")[:300], "needs": meta.get("needs_to_manifest", "")[:300], "rules": new[:6]}
+    print(name, row["status"], row["rules"][:2], flush=True)
+    return row
+
+
+try:
+    for p in sorted({os.path.basename(d).split("-")[0] for d in dirs}):
+        base_of(p)
+    with ThreadPoolExecutor(max_workers=int(os.environ.get("VERIF_JOBS", "8"))) as ex:
+        rows = list(ex.map(one, dirs))
+finally:
+    shutil.rmtree(tmp, ignore_errors=True)
+if not only:
+    json.dump(rows, open(os.path.join(V.VERIF, "seeded", "RESULTS.json"), "w"), indent=1)
+    with open(os.path.join(V.VERIF, "seeded", "RESULTS.md"), "w") as f:
+        f.write("| seeded change | what it does | detected by (obligation keys) |\n|---|---|---|\n")
+        for r in rows:
+            f.write(f"| {r['seed']} | {r.get('summary','').replace('|','/')} | {r['status']}: {', '.join(r['rules'])} |\n")
 print("detected", sum(r["status"] == "DETECTED" for r in rows), "of", len(rows))
+for r in rows:
+    if r["status"] != "DETECTED":
+        print("  ", r["seed"], r["status"], "-", r.get("summary", "")[:200])
